@@ -1,0 +1,158 @@
+//! Verification hooks (compiled only with the `verif` cargo feature, off by default).
+//!
+//! Read-only accessors and an observation callback used by an external deterministic
+//! simulator.  Nothing in here changes the behaviour of the engine.
+
+use crate::{
+    DbCollection, Engine,
+    data,
+    scheduler::{Process, Task},
+};
+use std::sync::{Arc, RwLock};
+
+/// the six collections an engine is running on
+#[derive(Clone)]
+pub struct Collections {
+    pub packages: Arc<dyn DbCollection<Item = data::Package>>,
+    pub models: Arc<dyn DbCollection<Item = data::Model>>,
+    pub procs: Arc<dyn DbCollection<Item = data::Proc>>,
+    pub tasks: Arc<dyn DbCollection<Item = data::Task>>,
+    pub messages: Arc<dyn DbCollection<Item = data::Message>>,
+    pub events: Arc<dyn DbCollection<Item = data::Event>>,
+}
+
+pub fn collections(engine: &Engine) -> Collections {
+    let store = engine.runtime().store();
+    Collections {
+        packages: store.packages(),
+        models: store.models(),
+        procs: store.procs(),
+        tasks: store.tasks(),
+        messages: store.messages(),
+        events: store.events(),
+    }
+}
+
+/// plain-data image of a task as the engine holds it in memory
+#[derive(Debug, Clone)]
+pub struct LiveTask {
+    pub tid: String,
+    pub nid: String,
+    pub kind: String,
+    pub uses: String,
+    pub key: String,
+    pub tag: String,
+    pub level: usize,
+    pub state: String,
+    pub prev: Option<String>,
+    pub data: String,
+    pub err: Option<String>,
+    pub start_time: i64,
+    pub end_time: i64,
+    pub timestamp: i64,
+    pub hooks: String,
+}
+
+/// plain-data image of a process as the engine holds it in memory
+#[derive(Debug, Clone)]
+pub struct LiveProc {
+    pub pid: String,
+    pub mid: String,
+    pub state: String,
+    pub err: Option<String>,
+    pub env: String,
+    pub start_time: i64,
+    pub end_time: i64,
+    pub timestamp: i64,
+    pub tasks: Vec<LiveTask>,
+}
+
+fn live_task(t: &Arc<Task>) -> LiveTask {
+    LiveTask {
+        tid: t.id.clone(),
+        nid: t.node().id().to_string(),
+        kind: t.node().kind().to_string(),
+        uses: t.node().uses(),
+        key: t.node().key(),
+        tag: t.node().tag(),
+        level: t.node().level,
+        state: t.state().to_string(),
+        prev: t.prev(),
+        data: t.data().to_string(),
+        err: t.err().map(|e| e.to_string()),
+        start_time: t.start_time(),
+        end_time: t.end_time(),
+        timestamp: t.timestamp,
+        hooks: serde_json::to_string(&t.hooks()).unwrap_or_default(),
+    }
+}
+
+fn live_proc_of(p: &Arc<Process>) -> LiveProc {
+    LiveProc {
+        pid: p.id().to_string(),
+        mid: p.model().id.clone(),
+        state: p.state().to_string(),
+        err: p.err().map(|e| e.to_string()),
+        env: p.env().to_string(),
+        start_time: p.start_time(),
+        end_time: p.end_time(),
+        timestamp: p.timestamp(),
+        tasks: p.tasks().iter().map(live_task).collect(),
+    }
+}
+
+/// the processes currently held in the cache (never loads from the store)
+pub fn live_procs(engine: &Engine) -> Vec<LiveProc> {
+    let mut ret: Vec<LiveProc> = engine
+        .runtime()
+        .cache()
+        .procs()
+        .iter()
+        .map(live_proc_of)
+        .collect();
+    ret.sort_by(|a, b| a.pid.cmp(&b.pid));
+    ret
+}
+
+/// one cached process (never loads from the store)
+pub fn live_proc(engine: &Engine, pid: &str) -> Option<LiveProc> {
+    engine
+        .runtime()
+        .cache()
+        .procs()
+        .iter()
+        .find(|p| p.id() == pid)
+        .map(live_proc_of)
+}
+
+/// drop a process from the cache without touching the store
+pub fn evict(engine: &Engine, pid: &str) {
+    engine.runtime().cache().verif_uncache(pid);
+}
+
+/// a task state write: (pid, tid, node kind, node id, uses, old state, new state, pure)
+/// `pure` is true for writes that bypass the lifecycle bookkeeping (used when a task is
+/// re-created from its stored row)
+pub type StateHook = dyn Fn(&str, &str, &str, &str, &str, &str, &str, bool) + Send + Sync;
+
+static STATE_HOOK: RwLock<Option<Arc<StateHook>>> = RwLock::new(None);
+
+pub fn set_state_hook(hook: Option<Arc<StateHook>>) {
+    *STATE_HOOK.write().unwrap() = hook;
+}
+
+pub(crate) fn on_state(task: &Task, old: &crate::TaskState, new: &crate::TaskState, pure: bool) {
+    let hook = STATE_HOOK.read().unwrap().clone();
+    if let Some(hook) = hook {
+        hook(
+            &task.pid,
+            &task.id,
+            &task.node().kind().to_string(),
+            task.node().id(),
+            &task.node().uses(),
+            &old.to_string(),
+            &new.to_string(),
+            pure,
+        );
+    }
+}
